@@ -5,7 +5,7 @@ from core import op_local, op_const_bits, op_const_named, place_fields, strip_cr
 from engine import rule
 from flow import flow_of
 from vocab import (api_mut, open_bodies, log_sites, log_site_kinds, kinds_written, agg_field_op, where, reachable_bodies,
-                   MPR, KINDS, root_bodies)
+                   MPR, KINDS, kinds, root_bodies)
 from rules_open import replay_sites, conversion_calls
 from rules_gc import position_pass_facts, in_loop
 
@@ -78,7 +78,7 @@ def replay_arms(ctx, b, cs):
             continue
         for path in place_path(known, pl):
             if path[:2] == (('v', 'Ok'), ('f', '0')):
-                for k in KINDS:
+                for k in kinds(ctx):
                     if k in edges:
                         arms[k] = (edges[k], b.reach([edges[k][1]], avoid=[cs.point]))
     return arms
@@ -120,7 +120,7 @@ def log2(ctx):
             continue
         for k in kinds_written(ctx, b):
             live.setdefault(k, set()).update(mem_leaves(ctx, b, mem_call_sites(ctx, b)))
-    for k in KINDS:
+    for k in kinds(ctx):
         if k not in arms:
             ctx.bad('kind:%s' % k, where(b0, cs0.point), 'entry kind %s has no replay arm: it is written but never applied at restart' % k)
             continue
